@@ -624,4 +624,90 @@ Proof.
     + apply (frame_extend_keeps_inv f i s s' f0 ft a); assumption.
   - apply (frame_append_keeps_inv f s s' f0 ft a); assumption.
 Qed.
+
+(* ---------- a whole recording: any number of frames appended one after the other (induction over the calls) ---------- *)
+Fixpoint run_frames (fs : list frame) (s : state) : res state unit :=
+  match fs with
+  | [] => ROk tt s
+  | f :: t => match api_frame f_key f_tosize f_div f_is_zero f None s with ROk _ s1 => run_frames t s1 | r => r end
+  end.
+
+(* what the next call needs from the previous one *)
+Lemma frame_append_carries : forall f s s' f0 ft a,
+  Inv s -> MT (groups s) -> frames s = f0 :: ft -> fr_subs f0 <> [] ->
+  lk_int0 (groups s) nm_ANALOG nm_USED = Some a -> a <> 0 -> announced s f ->
+  nlen (frames s) + 1 < 2147483648 -> nlen (fr_pts f0) < 2147483648 -> a < 2147483648 -> a * h_byframe (hdr s) < two64 ->
+  api_frame f_key f_tosize f_div f_is_zero f None s = ROk tt s' ->
+  Inv s' /\ MT (groups s') /\ frames s' = f0 :: (ft ++ [f]) /\ lk_int0 (groups s') nm_ANALOG nm_USED = Some a /\
+  h_byframe (hdr s') = h_byframe (hdr s) /\ (forall g, announced s g -> announced s' g).
+Proof.
+  intros f s s' f0 ft a HI HM Ef Hsub Ha Ha0 An Sz1 Sz2 Sz3 Sz4 H.
+  pose proof (frame_append_keeps_inv f s s' f0 ft a HI HM Ef Hsub Ha Ha0 An Sz1 Sz2 Sz3 Sz4 H) as HI'.
+  (* counts of s, the way the updaters read them *)
+  assert (F0 : filled f0 = true).
+  { unfold filled. destruct (fr_subs f0) as [|x t]; [contradiction|]. unfold nlen. cbn [length]. rewrite Bool.andb_false_r. reflexivity. }
+  assert (Q : exists u, lk_int0 (groups s) nm_POINT nm_USED = Some u /\ u = nlen (fr_pts f0) /\ nan_of f0 = a /\ h_byframe (hdr s) = nlen (fr_subs f0)).
+  { pose proof HI as HI0. unfold Inv, inv_b in HI0. set (r := inv_report_of s) in HI0.
+    apply andb_prop in HI0. destruct HI0 as [HI0 _]. apply andb_prop in HI0. destruct HI0 as [HI0 _]. apply andb_prop in HI0. destruct HI0 as [HI0 I8].
+    apply andb_prop in HI0. destruct HI0 as [HI0 _]. apply andb_prop in HI0. destruct HI0 as [HI0 _]. apply andb_prop in HI0. destruct HI0 as [HI0 I5].
+    apply andb_prop in HI0. destruct HI0 as [HI0 _]. apply andb_prop in HI0. destruct HI0 as [HI0 _]. apply andb_prop in HI0. destruct HI0 as [_ I2].
+    unfold r, inv_report_of in I2, I5, I8. cbn [r_points_frames r_subframes r_analogs_frames] in I2, I5, I8.
+    rewrite Ha, Ef in *. cbn [filter] in I2, I5, I8. rewrite F0 in I2, I5, I8. cbn [forallb] in I2, I5, I8.
+    destruct (lk_int0 (groups s) nm_POINT nm_USED) as [u|]; [|discriminate]. exists u. split; [reflexivity|].
+    apply andb_prop in I2. destruct I2 as [I2a _]. apply andb_prop in I5. destruct I5 as [I5a _].
+    assert (Bf : h_byframe (hdr s) = nlen (fr_subs f0)) by lia.
+    assert (Bf1 : (1 <=? h_byframe (hdr s)) = true) by (rewrite Bf; destruct (fr_subs f0); [contradiction|unfold nlen; cbn [length]; lia]).
+    rewrite Bf1 in I8. apply andb_prop in I8. destruct I8 as [I8a _].
+    split; [lia|]. split; [|exact Bf]. unfold nan_of. destruct (fr_subs f0) as [|sf0 t]; [contradiction|]. cbn [forallb] in I8a. lia. }
+  destruct Q as [u [Eu [Ua [Na Bf]]]].
+  set (fs' := frames s ++ [f]).
+  assert (P : put empty_frame (frames s) f None = Ok fs') by reflexivity.
+  destruct (lk_int0_r 0 _ _ _ _ Eu) as [vu [Rvu Evu]]. destruct (lk_int0_r 0 _ _ _ _ Ha) as [va [Rva Eva]].
+  assert (CA : counts_agree (set_frames s fs')).
+  { unfold counts_agree, fs'. cbn [frames set_frames groups]. rewrite Ef. cbn [app]. split.
+    - exists vu. split; [exact Rvu|lia].
+    - exists va. split; [exact Rva|lia]. }
+  assert (Sm : forall fs'', put empty_frame (frames s) f None = Ok fs'' -> small_frames fs'').
+  { intros fs'' E. rewrite P in E. injection E as <-. unfold small_frames, fs'. rewrite Ef. cbn [app]. rewrite Ef in Sz1.
+    split; [unfold nlen in *; cbn [length] in *; rewrite app_length; cbn [length]; lia|]. split; [exact Sz2|rewrite Na; exact Sz3]. }
+  destruct (api_frame_counts f_key f_tosize f_div f_is_zero f_key_nt f_tosize_nt f None s s' HM Sm H) as [HM' _].
+  pose proof (api_frame_keeps_parameters f_key f_tosize f_div f_is_zero f None s s' H
+                (fun fs'' E => ltac:(rewrite P in E; injection E as <-; exact CA))) as KL.
+  pose proof (api_frame_store f_key f_tosize f_div f_is_zero f None s s' ltac:(intros i E; discriminate) H) as St.
+  cbn [store_spec] in St. rewrite Ef in St. cbn [app] in St.
+  assert (NA : nm_ANALOG <> nm_POINT) by ne.
+  assert (La : lk_int0 (groups s') nm_ANALOG nm_USED = Some a).
+  { rewrite (lk_int0_ext (groups s) (groups s') nm_ANALOG nm_USED (KL nm_ANALOG nm_USED (or_introl NA))). exact Ha. }
+  assert (Bf' : h_byframe (hdr s') = h_byframe (hdr s)).
+  { pose proof HI' as HI0. unfold Inv, inv_b in HI0. set (r := inv_report_of s') in HI0.
+    apply andb_prop in HI0. destruct HI0 as [HI0 _]. apply andb_prop in HI0. destruct HI0 as [HI0 _]. apply andb_prop in HI0. destruct HI0 as [HI0 _].
+    apply andb_prop in HI0. destruct HI0 as [HI0 _]. apply andb_prop in HI0. destruct HI0 as [HI0 _]. apply andb_prop in HI0. destruct HI0 as [_ I5].
+    unfold r, inv_report_of in I5. cbn [r_subframes] in I5. rewrite St in I5. cbn [filter] in I5. rewrite F0 in I5. cbn [forallb] in I5.
+    apply andb_prop in I5. destruct I5 as [I5a _]. lia. }
+  split; [exact HI'|]. split; [exact HM'|]. split; [exact St|]. split; [exact La|]. split; [exact Bf'|].
+  intros g [G1 [G2 G3]]. assert (N1 : nm_LABELS <> nm_FRAMES) by ne. split; [|split].
+  - rewrite (lk_strs_ext (groups s) (groups s') nm_POINT nm_LABELS (KL nm_POINT nm_LABELS (or_intror N1))). exact G1.
+  - rewrite Bf'. exact G2.
+  - intros sf Hin. rewrite (lk_strs_ext (groups s) (groups s') nm_ANALOG nm_LABELS (KL nm_ANALOG nm_LABELS (or_introl NA))). exact (G3 sf Hin).
+Qed.
+
+Theorem frames_session_keeps_inv : forall fs s s' f0 ft a,
+  Inv s -> MT (groups s) -> frames s = f0 :: ft -> fr_subs f0 <> [] ->
+  lk_int0 (groups s) nm_ANALOG nm_USED = Some a -> a <> 0 -> Forall (announced s) fs ->
+  nlen (frames s) + nlen fs < 2147483648 -> nlen (fr_pts f0) < 2147483648 -> a < 2147483648 -> a * h_byframe (hdr s) < two64 ->
+  run_frames fs s = ROk tt s' ->
+  Inv s' /\ frames s' = frames s ++ fs.
+Proof.
+  induction fs as [|f t IH]; intros s s' f0 ft a HI HM Ef Hsub Ha Ha0 An Sz1 Sz2 Sz3 Sz4 H.
+  - cbn [run_frames] in H. injection H as <-. rewrite app_nil_r. split; [exact HI|reflexivity].
+  - cbn [run_frames] in H. destruct (api_frame f_key f_tosize f_div f_is_zero f None s) as [[] s1| |] eqn:E; try discriminate.
+    apply Forall_cons_iff in An. destruct An as [Anf Ant].
+    assert (Sz1' : nlen (frames s) + 1 < 2147483648) by (unfold nlen in *; cbn [length] in Sz1; lia).
+    destruct (frame_append_carries f s s1 f0 ft a HI HM Ef Hsub Ha Ha0 Anf Sz1' Sz2 Sz3 Sz4 E) as (HI1 & HM1 & St1 & La1 & Bf1 & Car).
+    destruct (IH s1 s' f0 (ft ++ [f]) a HI1 HM1 St1 Hsub La1 Ha0) as [HI' Fr']; try assumption.
+    + apply Forall_forall. intros g Hg. apply Car. rewrite Forall_forall in Ant. exact (Ant g Hg).
+    + rewrite St1. rewrite Ef in Sz1. unfold nlen in *. cbn [length] in *. rewrite app_length. cbn [length]. lia.
+    + rewrite Bf1. exact Sz4.
+    + split; [exact HI'|]. rewrite Fr', St1, Ef. cbn [app]. rewrite <- app_assoc. reflexivity.
+Qed.
 End WithOps.
